@@ -2,7 +2,7 @@
 import common
 from props.parts import counts
 
-THEOREMS = ["C05_counts_invariant", "C05_initial_state_ok", "C05_send_admission", "C05_recv_limit", "C05_slot_recycled", "C05_nonvacuous"]
+THEOREMS = ["C05_counts_invariant", "C05_initial_state_ok", "C05_send_admission", "C05_recv_limit", "C05_slot_recycled", "C05_nonvacuous", "C05_reset_slot_returned", "C05_reset_slot_fix_needed"]
 PARTIAL = [
     "proved on the model of counts.rs: admission only below the limit, receive count within the advertised limit, a closed stream's slot "
     "is given back exactly once, counters = number of counted records, no assert of counts.rs can fire;",
